@@ -5,6 +5,7 @@
 #      (superset reachability) — each must give no violation;
 #   2. the checker regression suite of that property (fire / silent variants applied to scratch copies of
 #      the current tree; informational, recorded in the evidence);
+#   2b. the independently written seeded changes of that property (seeded/<prop>-*), against all checks; informational;
 #   3. the rules on the default configuration, tier=thorough, which writes the evidence file and decides
 #      the exit status together with step 1.
 set -u
@@ -35,10 +36,15 @@ done
 fire_ok=$(grep -c '^FIRE-OK' "$T/selftest.log"); missed=$(grep -c '^MISSED' "$T/selftest.log")
 silent_ok=$(grep -c '^SILENT-OK' "$T/selftest.log"); alarms=$(grep -c '^FALSE-ALARM' "$T/selftest.log"); skipped=$(grep -c '^SKIP' "$T/selftest.log")
 grep '^MISSED\|^FALSE-ALARM\|^selftest:' "$T/selftest.log"
+"$HERE/tools/seeded.sh" "$prop" > "$T/seeded.log" 2>&1
+seed_caught=$(grep -c '^CAUGHT' "$T/seeded.log"); seed_missed=$(grep -c '^MISSED' "$T/seeded.log"); seed_skip=$(grep -c '^SKIP' "$T/seeded.log")
+grep '^MISSED' "$T/seeded.log"
 cat > "$T/extra.json" <<EOJ
 {"configurations": {${cfgs%,}},
  "selftest": {"fire_variants_caught": $fire_ok, "fire_variants_missed": $missed, "silent_variants_quiet": $silent_ok, "silent_variants_false_alarm": $alarms, "skipped_not_applicable_to_current_tree": $skipped,
-  "note": "one-instance-broken and behaviour-preserving variants of the CURRENT tree (mutants/$prop); informational, the verdict is computed on the current tree alone"}}
+  "note": "one-instance-broken and behaviour-preserving variants of the CURRENT tree (mutants/$prop); informational, the verdict is computed on the current tree alone"},
+ "seeded_changes": {"reported": $seed_caught, "missed": $seed_missed, "skipped_not_applicable_to_current_tree": $seed_skip,
+  "note": "independently written breaking changes of this property (seeded/$prop-*), applied to scratch copies of the current tree and run against all checks; informational"}}
 EOJ
 "$BIN" -property "$prop" -tier thorough -repo "$REPO" -verif "$HERE" -extra "$T/extra.json"
 rc=$?
